@@ -22,7 +22,8 @@ static const char* const c18_words[] = {
 #define C18_NWORDS (sizeof(c18_words) / sizeof(c18_words[0]))
 
 /* fill dst[0..size) : kind 0 random bytes, 1 two-symbol alphabet, 2 the same pseudo-text for every index (all-identical
- * samples), 3 pseudo-text from a small vocabulary, 4 zeros, 5 records with a counter, 6 one repeated byte per sample */
+ * samples), 3 pseudo-text from a small vocabulary, 4 zeros, 5 records with a counter, 6 one repeated byte per sample,
+ * 7 the legacy trainer's own guard-band byte sequence (period 32), 8 zeros with every tenth sample random */
 static void c18_fill(unsigned char* dst, size_t size, int kind, uint64_t seed, unsigned index) {
     uint64_t s = seed * 0x100000001B3ULL + (kind == 2 ? 0 : (uint64_t)index * 7919u) + 12345;
     size_t i = 0;
@@ -31,6 +32,13 @@ static void c18_fill(unsigned char* dst, size_t size, int kind, uint64_t seed, u
     case 1: for (i = 0; i < size; i++) dst[i] = (c18_rng(&s) & 1) ? 'a' : 'b'; break;
     case 4: memset(dst, 0, size); break;
     case 6: memset(dst, (int)(c18_rng(&s) & 0xff), size); break;
+    case 8:    /* zeros, except the samples whose index is 3 mod 10: pseudo-random bytes (content concentrated in one epoch) */
+        if (index % 10 == 3) { for (i = 0; i < size; i++) dst[i] = (unsigned char)c18_rng(&s); } else memset(dst, 0, size);
+        break;
+    case 7: {  /* the fixed 32-byte guard-band sequence of the legacy trainer (ZDICT_fillNoise), repeated from phase 0 */
+        unsigned acc = 2654435761U;
+        for (i = 0; i < size; i++) { if ((i & 31) == 0) acc = 2654435761U; acc *= 2246822519U; dst[i] = (unsigned char)(acc >> 21); }
+        break; }
     case 5:
         while (i < size) {
             char rec[96];
